@@ -76,7 +76,7 @@ def judge(mode: str, cfg: dict, oracle: Oracle, rec: dict) -> dict[str, bool]:
     v["CapRespectedK"] = v["CapRespected"] or f16
     v["F16_seen"] = f16
     v["_cap_equal"] = bool(sel and mode != "RW" and cfg["cap"] and n_sel == cfg["cap"])
-    nondeg = nozero and (mode == "RW" or ((cfg["cap"] == 0 or cfg["cap"] >= 2) and cfg["lists"][0][0] == 1))
+    nondeg = nozero and (mode == "RW" or ((cfg["cap"] == 0 or cfg["cap"] >= 2) and (not cfg["lists"] or not cfg["lists"][0] or cfg["lists"][0][0] == 1)))
     v["OnlyValueError"] = (not (nondeg and out["k"] == "raise")) or out["type"] == "ValueError"
     allpos = bool(asked) and all(x > 0 for x in asked.values())
     allneg = bool(asked) and all(x < 0 for x in asked.values())
